@@ -271,6 +271,26 @@ def expand_pred(repo, cls, test, _depth=0):
     return out
 
 
+def returned_expr(fn, ret):
+    """The expression a `return` hands back: `return x` with `x` bound by a
+    plain assignment in the same block right before it gives that value
+    (so `tmp = f(..); return tmp` reads like `return f(..)`)."""
+    v = ret.value
+    if not isinstance(v, ast.Name):
+        return v
+    parent = getattr(ret, '_parent', None)
+    for attr in ('body', 'orelse', 'finalbody'):
+        blk = getattr(parent, attr, None)
+        if isinstance(blk, list) and ret in blk:
+            i = blk.index(ret)
+            if i > 0 and isinstance(blk[i - 1], ast.Assign) and len(
+                    blk[i - 1].targets) == 1 and isinstance(
+                    blk[i - 1].targets[0], ast.Name) and \
+                    blk[i - 1].targets[0].id == v.id:
+                return blk[i - 1].value
+    return v
+
+
 def norm_stmt(node):
     """Position-free key text of a statement/expression."""
     return ' '.join(U(node).split())[:160]
